@@ -504,6 +504,8 @@ pub struct StateSpec {
     pub expire_now: bool,
     pub max_concurrent_1: bool,
     pub push_disabled: bool,
+    /// the client itself advertises SETTINGS_MAX_CONCURRENT_STREAMS = 1 (it limits the streams the server may push)
+    pub client_limit_1: bool,
 }
 
 const MARK: [u8; 3] = [0xee, 0xee, 0xee];
@@ -520,12 +522,15 @@ pub fn cfg_for(s: &StateSpec) -> T2Cfg {
     if s.max_concurrent_1 {
         sb.max_concurrent_streams(1);
     }
+    if s.client_limit_1 {
+        cb.max_concurrent_streams(1);
+    }
     let peer_settings = if s.max_concurrent_1 && s.role == Side::Client { vec![(wf::setting::MAX_CONCURRENT_STREAMS, 1)] } else { vec![] };
     T2Cfg { role: s.role, peer_settings, client: Some(cb), server: Some(sb), policy: IoPolicy::default() }
 }
 
 pub fn states() -> Vec<StateSpec> {
-    let s = |name: &'static str, role: Side, followup: bool| StateSpec { name, role, followup, expire_now: false, max_concurrent_1: false, push_disabled: false };
+    let s = |name: &'static str, role: Side, followup: bool| StateSpec { name, role, followup, expire_now: false, max_concurrent_1: false, push_disabled: false, client_limit_1: false };
     use Side::*;
     vec![
         s("s-fresh", Server, true),
@@ -567,6 +572,8 @@ pub fn states() -> Vec<StateSpec> {
         s("c-send-window-negative", Client, true),
         s("c-conn-window-exhausted", Client, false),
         s("c-interim-received", Client, true),
+        // two streams promised, the first of them opened: the client's own limit of one concurrent (pushed) stream is reached
+        StateSpec { client_limit_1: true, ..s("c-push-limit-reached", Client, true) },
     ]
 }
 
@@ -890,6 +897,15 @@ pub fn enter(t: &mut T2, s: &StateSpec) -> App {
             t.drive(d);
             let b = T2::block(&[(":method", "GET"), (":scheme", "http"), (":authority", "h.example"), (":path", "/pushed")]);
             t.peer_send(&wf::push_promise(1, 2, &b, true));
+            t.drive(d);
+        }
+        "c-push-limit-reached" => {
+            client_request(t, &mut app, false);
+            t.drive(d);
+            let b = T2::block(&[(":method", "GET"), (":scheme", "http"), (":authority", "h.example"), (":path", "/pushed")]);
+            t.peer_send(&wf::push_promise(1, 2, &b, true));
+            t.peer_send(&wf::push_promise(1, 4, &b, true));
+            t.peer_response(2, "200", false);
             t.drive(d);
         }
         "c-request-parked" => {
